@@ -330,6 +330,26 @@ def main():
         if kr['status'] == 'failed':
             failed_all.append({'ob': hname, 'props': [pid], 'fn': kr.get('fn'), 'msg': kr.get('reason', ''), 'rendered': kr.get('output', '')[-3000:], 'kind': 'kani', 'unit': 'kani', 'full': full, 'witness': kr.get('witness')})
         lemmas_ev.append(ent)
+    # Bounded stand-ins for functions that cannot be brought within the verifier's reach (labelled bounded, never
+    # counted as proved): run-time scenarios against the real code; a failing scenario is a concrete failing input.
+    for tname in pc.get('bounded_twins', []):
+        try:
+            import replaytool, witness
+            ok, err = replaytool.build_replay_bin()
+            if not ok:
+                undecided.append('bounded twin %s: replay crate does not build against the current tree: %s' % (tname, err[-300:]))
+                continue
+            info = witness.BOUNDED_TWINS[tname]
+            t1 = time.time()
+            w = info['gen'](pid, {'full': 'twin/' + tname, 'fn': info['fn'], 'kind': 'twin'})
+            ent = {'harness': 'twin/' + tname, 'status': 'failed' if w else 'ok', 'bound': info['bound'], 'wall_s': round(time.time() - t1, 2), 'complete': False, 'stands_in_for': info['fn']}
+            bounded.append(ent)
+            cmds.append('build/replay-target/debug/replay (scenarios of tools/witness.py:%s)' % info['gen'].__name__)
+            obligations_seen['twin/' + tname] = {'text': '(bounded, not counted as proved) ' + info['what'], 'fn': info['fn'], 'kind': 'twin-bounded'}
+            if w:
+                failed_all.append({'ob': tname, 'props': [pid], 'fn': info['fn'], 'msg': w.get('what', ''), 'rendered': json.dumps(witness.run_witness(w))[:3000], 'kind': 'twin', 'unit': 'twin', 'full': 'twin/' + tname, 'witness': w})
+        except Exception as e:
+            undecided.append('bounded twin %s failed to run: %r' % (tname, e))
     # classify failures: known finding / violation / undecided(no baseline)
     violations, known_hits, no_base = [], [], []
     open_k = {(k['property'], k['obligation']): k for k in known.get('open', [])}
@@ -340,7 +360,7 @@ def main():
         key = (pid, f['full'])
         if key in open_k:
             known_hits.append((f, open_k[key]))
-        elif rebaseline or baseline.get(pid, {}).get(f['full']) or f['kind'] in ('ownership',):
+        elif rebaseline or baseline.get(pid, {}).get(f['full']) or f['kind'] in ('ownership', 'twin'):
             violations.append(f)
         else:
             no_base.append(f)
@@ -388,6 +408,10 @@ def main():
                     fake = {'full': 'undecided', 'fn': None, 'kind': 'undecided'}
                     if pid in ('C01', 'C02', 'C05', 'C06', 'C07', 'C08', 'C10', 'C11', 'C12', 'C19'):
                         w = witness.gen_refmodel(pid, fake)
+                    if w is None and pid in ('C05',):
+                        w = witness.gen_clock(pid, fake)
+                    if w is None and pid in ('C03', 'C04'):
+                        w = witness.gen_conc_store(pid, fake)
                     if w is None and pid in ('C09', 'C10', 'C12', 'C13', 'C18'):
                         w = witness.gen_framing(pid, fake) or witness.gen_sock(pid, fake)
                     if w is None and pid in ('C15', 'C14'):
@@ -437,6 +461,16 @@ def main():
                         thorough['twin']['witness_lines'] = w.get('lines')
             except Exception as e:
                 thorough['twin_error'] = repr(e)
+        if pid == 'C05':
+            try:
+                import replaytool, witness
+                ok, err = replaytool.build_replay_bin()
+                if ok:
+                    w = witness.gen_clock(pid, {'full': 'server/timer'})
+                    thorough['clock_twin'] = {'bounded': 'ticks 1 .. 2^23 of the real SystemTimer', 'mismatch': (w or {}).get('what')}
+                    if w: undecided.append('clock twin disagrees with the real SystemTimer although every obligation is discharged')
+            except Exception as e:
+                thorough['clock_twin_error'] = repr(e)
         if pid in ('C09', 'C10', 'C12', 'C13'):
             try:
                 import replaytool, witness
